@@ -51,3 +51,98 @@ pub fn round_literal(neg: bool, num: &Big, k: u32, radix: u32, f: u32) -> (Big, 
     (if neg { r.neg() } else { r }, exact)
 }
 
+
+
+/// Decimal digit groups on a limb boundary. A parser that accumulates the fraction digits in groups of `p`
+/// digits forms `h * 10^p + l` in `b`-bit limbs; this returns a `p`-digit group value `h` for which
+/// `h * 10^p mod 2^b` lies `k * 2^p` below (`below`) or above a multiple of `2^b`, so that adding almost any
+/// following group `l` carries (or just does not carry) into the next limb. Uniformly random digits reach such
+/// an `h` with probability about `10^p / 2^b`. `h * 10^p = 2^p * (h * 5^p)`, so `h = -+k * inv(5^p) mod 2^(b-p)`.
+pub fn limb_carry_group(p: u32, b: u32, k: u128, below: bool) -> Option<u128> {
+    let (base, mask) = limb_carry_base(p, b, below)?;
+    let h = base.wrapping_mul(k) & mask;
+    if h < 10u128.checked_pow(p)? {
+        Some(h)
+    } else {
+        None
+    }
+}
+/// (+-inverse of 5^p modulo 2^(b-p), mask of that modulus)
+fn limb_carry_base(p: u32, b: u32, below: bool) -> Option<(u128, u128)> {
+    let m = b - p; // modulus 2^m, m <= 128
+    let mask = if m >= 128 { u128::MAX } else { (1u128 << m) - 1 };
+    let a = 5u128.checked_pow(p)? & mask;
+    // inverse of the odd number a modulo 2^128 by Newton iteration (doubles the correct bits each round)
+    let mut x = a;
+    for _ in 0..7 {
+        x = x.wrapping_mul(2u128.wrapping_sub(a.wrapping_mul(x)));
+    }
+    let inv = x & mask;
+    debug_assert!(a.wrapping_mul(inv) & mask == 1);
+    Some((if below { inv.wrapping_neg() & mask } else { inv }, mask))
+}
+pub const LIMB_GROUPS: [(u32, u32); 6] = [(27, 128), (27, 128), (27, 128), (19, 64), (13, 64), (9, 32)];
+
+/// fraction digits `group(h) ++ suffix` from the limb-boundary class; falls back to random digits
+pub fn limb_carry_fraction(sel: u128, suffix: &[u8], max_suffix: usize) -> String {
+    let (p, b) = LIMB_GROUPS[(sel % 6) as usize];
+    let below = (sel >> 3) & 3 != 0;
+    // the density of valid groups among k = 1, 2, 3, ... is 10^p / 2^(b-p) (2^-11.3 for 27 digits in 128 bits):
+    // scan from a start chosen by the case; k stays far below 10^(p-1) / 2^p, so a following group with a
+    // non-zero leading digit always carries
+    let mut h = None;
+    let kmax = (10u128.pow(p - 1) >> (p + 1)).min(1u128 << 36);
+    let k0 = 1 + (sel >> 8) % kmax;
+    if let Some((base, mask)) = limb_carry_base(p, b, below) {
+        let lim = 10u128.pow(p);
+        for t in 0..60_000u128 {
+            let c = base.wrapping_mul(k0 + t) & mask;
+            if c < lim {
+                h = Some(c);
+                break;
+            }
+        }
+    }
+    let h = h.unwrap_or((sel >> 16) % 10u128.pow(p));
+    let mut s = format!("{:0>width$}", h, width = p as usize);
+    let n = suffix.len().min(max_suffix).max(1);
+    for (i, d) in suffix.iter().take(n).enumerate() {
+        let d = (d % 10) as u32;
+        // a leading non-zero digit makes the following group large enough to carry
+        let d = if i == 0 && d == 0 { 1 + ((sel >> 40) % 9) as u32 } else { d };
+        s.push(std::char::from_digit(d, 10).unwrap());
+    }
+    if suffix.is_empty() {
+        s.push(std::char::from_digit(1 + ((sel >> 40) % 9) as u32, 10).unwrap());
+    }
+    s
+}
+
+
+#[cfg(test)]
+mod limb_tests {
+    use super::*;
+    #[test]
+    fn carry_groups_carry() {
+        for sel in [0u128, 1, 2, 0x1234_5678_9abc_def0, 77 << 8, 3 | (5 << 8)] {
+            for &(p, b) in LIMB_GROUPS.iter() {
+                let (base, mask) = limb_carry_base(p, b, true).unwrap();
+                let kmax = (10u128.pow(p - 1) >> (p + 1)).min(1u128 << 36);
+                let k0 = 1 + (sel >> 8) % kmax;
+                let mut found = None;
+                for t in 0..60_000u128 {
+                    let c = base.wrapping_mul(k0 + t) & mask;
+                    if c < 10u128.pow(p) {
+                        found = Some(c);
+                        break;
+                    }
+                }
+                let h = found.expect("a group is found");
+                // h * 10^p mod 2^b + 10^(p-1) >= 2^b
+                let hp = if b == 128 { h.wrapping_mul(10u128.pow(p)) } else { h.wrapping_mul(10u128.pow(p)) & ((1u128 << b) - 1) };
+                let (sum, carry) = hp.overflowing_add(10u128.pow(p - 1));
+                assert!(if b == 128 { carry } else { sum >> b != 0 }, "p={} b={} h={}", p, b, h);
+            }
+        }
+    }
+}
